@@ -23,8 +23,30 @@ def other(x):
     return "S" if x == "M" else "M"
 
 
+def make_tub_unstarted(net, name, pemdata):
+    """implenv.make_tub without the final startService() (same statements, same order)"""
+    import foolscap.pb as pb
+    from foolscap.api import Tub
+    t = Tub(certData=pemdata)
+    t.removeAllConnectionHintHandlers()
+    t.addConnectionHintHandler("fake", E.FakeHandler(net))
+    l = pb.Listener.__new__(pb.Listener)
+    l._tub = t
+    l._test_options = {}
+    l._redirects = {}
+    l._negotiationClass = t.negotiationClass
+    l._lp = None
+    l._ep = "fake"
+    t.listeners.append(l)
+    t.setLocation("fake:%s:1" % name)
+    net.tubs[name] = t
+    return t
+
+
 class World:
-    def __init__(self, handle_old=None):
+    def __init__(self, handle_old=None, unstarted=(), third=False):
+        """unstarted: names of Tubs that are created but whose startService() is delayed (World.start);
+        third: a third Tub "T" (a plain lookup target, outside the M/S pair the agreement oracle looks at)"""
         E.reset_clock()
         self.net = Net()
         (lo_id, lo_pem), (hi_id, hi_pem) = pems_sorted(2)
@@ -39,12 +61,22 @@ class World:
         self.reentered = 0
         self.dying = None
         self.graveyard = []
-        for x in NAMES:
-            self._start(x)
+        self.started_at = {}
+        if third:
+            self.pem["T"] = E.pem(2)
+            self.epoch["T"] = 0
+            self.irs["T"] = []
+            self.retry["T"] = None
+        for x in NAMES + (("T",) if third else ()):
+            self._start(x, start=x not in unstarted)
 
     # ------------------------------------------------------------ tubs
-    def _start(self, x):
-        t = make_tub(self.net, x, self.pem[x])
+    def _start(self, x, start=True):
+        if start:
+            t = make_tub(self.net, x, self.pem[x])
+        else:
+            t = make_tub_unstarted(self.net, x, self.pem[x])
+        self.tubid.setdefault(x, t.tubID)
         t.registerReference(Target(), name="obj")
         if self.handle_old is not None:
             t.setOption("handle-old-duplicate-connections", self.handle_old)
@@ -52,6 +84,18 @@ class World:
         self.irs[x].append(t.getIncarnationString())
         assert t.tubID == self.tubid[x]
         return t
+
+    def start(self, x):
+        """Tub.startService() of a Tub created unstarted: the lookups queued so far are released; their
+        CONNECTION_TIMEOUT runs from now"""
+        t = self.tub[x]
+        now = E.clock.seconds()
+        for rec in self.results:
+            if rec["who"] == x and rec.get("queued") and rec["epoch"] == self.epoch[x] and not rec["fired"]:
+                rec["t0"] = now
+        t.startService()
+        E.turn()
+        self.name_links()
 
     def furl(self, x, nhints):
         hints = ",".join("fake:%s:%d" % (x, i + 1) for i in range(nhints))
@@ -73,28 +117,29 @@ class World:
         """every link gets client_name = M/S of the Tub (current or past incarnation) that dialled it"""
         for l in self.net.links:
             if not hasattr(l, "client_name"):
-                for x in NAMES:
+                for x in list(self.tub):
                     if l.client_tub is self.tub[x] or any(l.client_tub is g and n == x for n, g in self.graveyard):
                         l.client_name = x
                 if not hasattr(l, "client_name"):
                     raise RuntimeError("link dialled by an unknown Tub")
 
-    def lookup(self, x, nhints=1, full=True, reenter=None):
+    def lookup(self, x, nhints=1, full=True, reenter=None, target=None):
         """tub x looks up the other tub's object (getReference) -- or, full=False, only asks for the Broker
         (Tub.getBrokerForTubRef: exactly the waiter mechanism, without the follow-up remote call).
         reenter = dict(left=n, on="err"|"ok"|"both", hints=k): the application's callback/errback of this lookup
         SYNCHRONOUSLY issues another lookup for the same Tub (an instant retry / a second FURL of that Tub), n deep."""
         n0 = len(self.net.links)
-        self._issue(x, nhints, full, reenter)
+        self._issue(x, nhints, full, reenter, target=target)
         E.turn()
         self.name_links()
         return self.net.links[n0:]
 
-    def _issue(self, x, nhints, full, reenter, depth=0):
+    def _issue(self, x, nhints, full, reenter, depth=0, target=None):
         t = self.tub[x]
-        rec = dict(who=x, fired=[], epoch=self.epoch[x], t0=E.clock.seconds(), at=[], depth=depth)
+        rec = dict(who=x, fired=[], epoch=self.epoch[x], t0=E.clock.seconds(), at=[], depth=depth, queued=not t.running,
+                   target=target or other(x))
         self.results.append(rec)
-        furl = self.furl(other(x), nhints)
+        furl = self.furl(target or other(x), nhints)
         if full:
             d = t.getReference(furl)
         else:
@@ -108,7 +153,7 @@ class World:
                 # re-entrant lookups, issued from inside the callback / errback
                 if reenter and reenter["left"] > 0 and (reenter["on"] == "both" or (reenter["on"] == "err") == bad):
                     self.reentered += 1
-                    self._issue(x, reenter.get("hints", nhints), full, dict(reenter, left=reenter["left"] - 1), depth + 1)
+                    self._issue(x, reenter.get("hints", nhints), full, dict(reenter, left=reenter["left"] - 1), depth + 1, target)
                 elif bad and self.retry.get(x):
                     k = self.retry[x]
                     self.retry[x] = None
@@ -258,8 +303,9 @@ class World:
             nb = chunk(rng) if callable(chunk) else chunk
             self.deliver_bytes(l, side, nb)
 
-    def live_broker_link(self, x):
-        bs = [b for b in self.tub[x].brokers.values()]
+    def live_broker_link(self, x, peer=None):
+        peer = peer or other(x)
+        bs = [b for ref, b in self.tub[x].brokers.items() if ref.getTubID() == self.tubid[peer]]
         if len(bs) > 1:
             return ("many", len(bs))
         if not bs:
@@ -608,6 +654,8 @@ def lookups_problem(w, timeout_s):
             continue
         how = "" if not r.get("depth") else " issued from inside the callback/errback of another lookup (depth %d, at t=%.1f)" % (
             r["depth"], r["t0"])
+        if r.get("queued"):
+            how += " queued before startService (released at t=%.1f, target %s)" % (r["t0"], r["target"])
         if len(r["fired"]) != 1:
             return "a getReference of %s%s fired %d times (%r)" % (r["who"], how, len(r["fired"]), r["fired"])
         if r["at"][0] - r["t0"] > timeout_s + 1e-6:
@@ -616,6 +664,8 @@ def lookups_problem(w, timeout_s):
 
 
 def lookup_sig(bad):
+    if "queued before startService" in bad:
+        return "lookup-queued-before-start"
     return "lookup-reentrant" if "issued from inside" in bad else "lookup"
 
 
@@ -657,7 +707,7 @@ def scenario(kind, seed, p):
     """one oracle run; returns (signature suffix | None, text, facts)"""
     rng = _random.Random(seed)
     T = fconn.TubConnector.CONNECTION_TIMEOUT
-    w = World()
+    w = World(unstarted=[p["who"]], third=True) if kind == "prestart" else World()
     facts = dict(kind=kind)
     chunk = None
     if p.get("bytes"):
@@ -838,6 +888,61 @@ def scenario(kind, seed, p):
                 if w.live_broker_link("M") is None:
                     return ("stale-not-displaced-by-redial/" + tag,
                             "round %d (%s): the new connection did not survive the late close of the stale one" % (rnd, tag), facts)
+        elif kind == "prestart":
+            # lookups issued BEFORE Tub.startService() are queued; several of them, for the peer (different FURLs /
+            # numbers of hints) and for a different Tub; then the Tub starts and the usual races follow: every queued
+            # lookup must fire exactly once within CONNECTION_TIMEOUT of the start, and -- without faults -- succeed
+            x = p["who"]
+            y = other(x)
+            for (tgt, k, re_) in p["queued"]:
+                w.lookup(x, k, reenter=re_, target=("T" if tgt == "T" else None))
+            if any(r["fired"] for r in w.results):
+                return "lookup-fired-before-start", "a lookup fired although the Tub was not started: %r" % (
+                    [r["fired"] for r in w.results],), facts
+            tick(p.get("wait", 0))
+            w.start(x)
+            if p.get("peer_lookup"):
+                w.lookup(y, p["peer_lookup"])
+            if p.get("late"):
+                w.lookup(x, p["late"])                      # an ordinary lookup right after the start
+            for i in range(p.get("steps", 0)):
+                r = rng.random()
+                ps = w.pending_steps()
+                if r < 0.1 or not ps:
+                    w.lookup(rng.choice(NAMES), rng.randint(1, 3), reenter=random_reenter(rng))
+                elif r < 0.2 and w.net.links:
+                    w.cut(rng.choice(w.net.links))
+                else:
+                    w.do_net_step(rng.choice(ps), rng, chunk)
+            settle(w, rng, chunk)
+            tick(1)
+            settle(w, rng, chunk)
+            facts["lookups"] = [(r["target"], r["queued"], list(r["fired"])) for r in w.results]
+            facts["results"] = [(r["fired"][0] if r["fired"] else "not-fired-yet") for r in w.results]
+            bad = agreement_problem(w)
+            if bad:
+                return "agreement", bad, facts
+            if not p.get("steps"):
+                # with a simultaneous lookup by the peer one side may legitimately be refused as a duplicate
+                # (RemoteNegotiationError) -- but it must have FIRED; lookups of the third Tub race with nobody
+                def fine(r):
+                    if r["fired"] == ["ok"]:
+                        return True
+                    return bool(p.get("peer_lookup")) and r["target"] != "T" and r["fired"] == ["RemoteNegotiationError"]
+                notok = [r for r in w.results if r["who"] == x and not r["depth"] and not fine(r)]
+                if notok:
+                    r0 = notok[0]
+                    return ("lookup-queued-before-start" if r0["queued"] else "lookup",
+                            "no faults: %d lookups were queued on %s before startService (targets %r); after the start and with "
+                            "everything delivered, the lookup #%d (target %s, queued=%s) has result %r; all results: %r"
+                            % (len(p["queued"]), x, [q[0] for q in p["queued"]], w.results.index(r0), r0["target"], r0["queued"],
+                               r0["fired"], facts["lookups"]), facts)
+                if w.live_broker_link(x) is None and any(q[0] != "T" for q in p["queued"]):
+                    return "no-connection-without-faults", "queued lookups were released but no connection exists", facts
+            drain(w, rng, chunk, T)
+            bad = lookups_problem(w, T) or agreement_problem(w)
+            if bad:
+                return (lookup_sig(bad) if "getReference" in bad else "agreement-after-timeout"), bad, facts
         elif kind == "blackhole":
             # nothing is ever delivered: the lookup must fail at CONNECTION_TIMEOUT, not hang, not earlier
             x = p["who"]
@@ -885,7 +990,7 @@ def run_case(ctx, kind, seed, p, nontrivial=True):
         ctx.fail("oracle/exception-escaped", "an exception escaped from the real Tubs in scenario %s %r: %r" % (kind, p, e),
                  replay=dict(kind=kind, seed=seed, params=p, tb=traceback.format_exc()))
         return None
-    ctx.case([kind, seed if kind in ("faults", "crossfire", "one-sided-cut") else 0, p], nontrivial=nontrivial)
+    ctx.case([kind, seed if kind in ("faults", "crossfire", "one-sided-cut", "prestart") else 0, p], nontrivial=nontrivial)
     ctx.hist("oracle_kind", kind)
     for r in facts.get("results", []) if isinstance(facts.get("results"), list) else []:
         ctx.hist("lookup_result", r if isinstance(r, str) else "/".join(r))
@@ -927,6 +1032,19 @@ def run_fixed(ctx):
                 for hints in (1, 2, 3):
                     run_case(ctx, "one-sided-cut", 9000 + hints, dict(first_dialer=first, rounds=[(n1, hints), (n2, 1 + hints % 3), (n1, 1)],
                                                                        bytes=(hints == 2)))
+    # lookups queued before Tub.startService(): 1-4 of them, same Tub (different hints) and a different Tub, with and
+    # without a simultaneous lookup by the peer, with and without faults afterwards
+    Q = [[("peer", 1, None)],
+         [("peer", 1, None), ("peer", 2, None)],
+         [("peer", 2, None), ("T", 1, None)],
+         [("T", 1, None), ("peer", 1, None), ("peer", 3, None)],
+         [("peer", 1, FIXED_REENTER[0]), ("T", 1, None), ("peer", 2, None), ("T", 1, None)]]
+    for who in NAMES:
+        for qi, q in enumerate(Q):
+            for peer_lookup in (0, 2):
+                run_case(ctx, "prestart", 9700 + qi, dict(who=who, queued=q, peer_lookup=peer_lookup, wait=(qi % 2) * 30,
+                                                          late=(1 if qi == 3 else 0), steps=0, bytes=(qi == 2)))
+            run_case(ctx, "prestart", 9750 + qi, dict(who=who, queued=q, peer_lookup=1, wait=5, steps=40, bytes=(qi == 4)))
     # parallel hints after every history, restarted peers
     for who in NAMES:
         for hist in ("fresh", "both-lost", "dialer-lost-only"):
@@ -948,6 +1066,12 @@ def run_all(ctx):
                                                 reenter=dict(M=random_reenter(rng), S=random_reenter(rng))))
     for i in range(ctx.n(200, 4000)):
         run_case(ctx, "faults", seed(), dict(steps=rng.choice([10, 25, 50, 90]), bytes=(i % 4 == 0), reenter=True))
+    for i in range(ctx.n(40, 1500)):
+        q = [(rng.choice(["peer", "peer", "T"]), rng.randint(1, 3), random_reenter(rng) if rng.random() < 0.3 else None)
+             for k in range(rng.randint(1, 5))]
+        run_case(ctx, "prestart", seed(), dict(who=rng.choice(NAMES), queued=q, peer_lookup=rng.choice([0, 0, 1, 3]),
+                                               wait=rng.choice([0, 10, 100]), late=rng.choice([0, 0, 2]),
+                                               steps=rng.choice([0, 0, 20, 60]), bytes=(i % 3 == 0)))
     for i in range(ctx.n(30, 1500)):
         rounds = [(rng.choice(NAMES), rng.randint(1, 3)) for k in range(rng.randint(1, 4))]
         run_case(ctx, "one-sided-cut", seed(), dict(first_dialer=rng.choice(NAMES), rounds=rounds, bytes=(i % 3 == 0)))
